@@ -93,3 +93,5 @@ func typeName(t byte, real byte) string {
 func bytesReader(b []byte) *bytes.Reader { return bytes.NewReader(b) }
 
 func sortInts(a []int) { sort.Ints(a) }
+
+func sortStrings(a []string) { sort.Strings(a) }
